@@ -327,3 +327,7 @@ META = dict(
                  "_rpds_single_component: equal window lengths and time steps, even FFT length (np.zeros(n/2) with odd n is a TypeError in the real code), "
                  "taper not identically zero; real(conj(z) z) modelled as an uninterpreted function of a real product"],
 )
+
+# Psd objects (what rpsd returns per component): validation and constructor
+import contracts.ctor_hvsr as _CTOR
+TASKS += _CTOR.PSD_TASKS
